@@ -138,3 +138,19 @@ Proof.
   revert x; induction a as [|a IH]; intros x; cbn [Nat.add skipn]; [reflexivity|].
   destruct x as [|y x]; [rewrite skipn_nil; reflexivity|]. apply IH.
 Qed.
+
+Lemma Forall_firstn {A} (P:A -> Prop) n (l:list A) : Forall P l -> Forall P (firstn n l).
+Proof. revert l. induction n as [|n IH]; intros l F; cbn [firstn]; [constructor|]. destruct l; [constructor|]. inversion F; subst. constructor; auto. Qed.
+Lemma Forall_skipn {A} (P:A -> Prop) n (l:list A) : Forall P l -> Forall P (skipn n l).
+Proof. revert l. induction n as [|n IH]; intros l F; cbn [skipn]; [exact F|]. destruct l; [constructor|]. inversion F; subst. auto. Qed.
+
+Lemma next_multiple_of_spec' a m : (0 < m)%N ->
+  let r := next_multiple_of a m in (r mod m = 0)%N /\ (a <= r)%N /\ (r < a + m)%N.
+Proof.
+  intros Hm. unfold next_multiple_of. destruct (a mod m =? 0)%N eqn:E.
+  - apply N.eqb_eq in E. cbn zeta. repeat split; try lia; try exact E.
+  - apply N.eqb_neq in E. cbn zeta. pose proof (N.mod_lt a m ltac:(lia)).
+    pose proof (N.div_mod a m ltac:(lia)).
+    repeat split; try lia.
+    replace (a + (m - a mod m))%N with ((a / m + 1) * m)%N by nia. apply N.mod_mul. lia.
+Qed.
